@@ -90,10 +90,41 @@ def canon_set(s):
     return sorted(-1 if r is None else int(r) for r in s)
 
 
+def prepare_trees(c):
+    import copy
+    import pickle
+    from rig.netlist import Net
+    trees = OrderedDict((n, build(t, c.get("build", "bottom-up"))) for n, t in c["routes"])
+    # the trees may reach the conversion after a round trip that applications commonly make
+    rt = c.get("roundtrip", "none")
+    for n in trees:
+        if rt == "pickle":
+            trees[n] = pickle.loads(pickle.dumps(trees[n], protocol=pickle.HIGHEST_PROTOCOL))
+        elif rt == "pickle0":
+            trees[n] = pickle.loads(pickle.dumps(trees[n], protocol=2))
+        elif rt == "deepcopy":
+            trees[n] = copy.deepcopy(trees[n])
+        elif rt == "copy":
+            trees[n] = copy.copy(trees[n])
+    # the dictionaries are keyed by Net objects (rig.netlist.Net), as the place-and-route flow has them; nets
+    # of the same group connect the same source to the same sinks with the same weight (two channels between
+    # the same populations) and differ only in their keys
+    groups = dict(c.get("net_groups", []))
+    ends = {}
+    nets = {}
+    for n in trees:
+        g = groups.get(n, n)
+        if g not in ends:
+            ends[g] = (Vertex(("src", g)), [Vertex(("snk", g, 0)), Vertex(("snk", g, 1))], 1.0 + (g % 3))
+        nets[n] = Net(ends[g][0], list(ends[g][1]), ends[g][2]) if c.get("net_objects", True) else n
+    routes = OrderedDict((nets[n], t) for n, t in trees.items())
+    net_keys = OrderedDict((nets.get(n, n), tuple(km)) for n, km in c["net_keys"])
+    return routes, net_keys
+
+
 def run_trees(c):
-    routes = OrderedDict((n, build(t, c.get("build", "bottom-up"))) for n, t in c["routes"])
-    net_keys = OrderedDict((n, tuple(km)) for n, km in c["net_keys"])
     try:
+        routes, net_keys = prepare_trees(c)      # rig's classes take part in this (constructors, copy/pickle)
         entry = c.get("entry", "r2t")
         if entry == "r2t":
             tables = routing_tree_to_tables(routes, net_keys)
